@@ -531,100 +531,166 @@ def check_dispatch(ctx: CheckContext, p: Program, r: Resolver, rule: str = "DISP
     return total
 
 
+def _positivity_guards(r: Resolver, fi: FuncInfo, stop: ast.stmt, params: List[str]):
+    """Which of `params` are refused (raise) when non-positive by the statements of fi that precede `stop`.
+    Returns (guarded names, definitely-weaker tests, saw a raising test this analysis cannot interpret)."""
+    guarded, weak, unknown = set(), [], False
+    pre: List[ast.stmt] = []
+    for st in fi.node.body:
+        if st is stop:
+            break
+        pre.append(st)
+    expanded: List[Tuple[ast.stmt, Dict[str, str]]] = []
+    for st in pre:
+        if isinstance(st, ast.Expr) and isinstance(st.value, ast.Call):
+            # a call of a module function whose body is such a guard counts, with its parameters mapped to our arguments
+            hit = False
+            for t in r.resolve_call(fi, st.value):
+                if isinstance(t, FuncInfo) and t.module is fi.module and not isinstance(t.node, ast.Lambda):
+                    mp: Dict[str, str] = {}
+                    for k, a in enumerate(st.value.args):
+                        if isinstance(a, ast.Name) and k < len(t.pos_params):
+                            mp[t.pos_params[k]] = a.id
+                    for k in st.value.keywords:
+                        if k.arg and isinstance(k.value, ast.Name):
+                            mp[k.arg] = k.value.id
+                    for s2 in t.node.body:
+                        expanded.append((s2, mp))
+                    hit = True
+            if not hit and any(isinstance(a, ast.Name) and a.id in params for a in st.value.args):
+                unknown = True            # an unresolved call on the very arguments: may be the validator
+        else:
+            expanded.append((st, {}))
+
+    def zero(e):
+        return isinstance(e, ast.Constant) and isinstance(e.value, (int, float)) and e.value == 0
+
+    def tiny(e):
+        return isinstance(e, ast.Constant) and isinstance(e.value, (int, float)) and 0 < e.value <= 1e-3
+
+    for st, mp in expanded:
+        if not (isinstance(st, ast.If) and st.body and isinstance(st.body[-1], ast.Raise) and not st.orelse):
+            continue
+        known = set(params) | set(mp)
+
+        def view(e, subst: Dict[str, List[str]]):
+            """the parameters `e` is a monotone (order-preserving, min-taking) view of; None if not such a view"""
+            nonlocal unknown
+            ok_meth = {"round", "min", "astype", "flatten", "ravel", "item"}
+            ok_np = {"array", "asarray", "min", "amin", "nanmin", "round", "around", "atleast_1d"}
+            cur = e
+            while True:
+                if isinstance(cur, ast.Name):
+                    if cur.id in subst:
+                        return set(subst[cur.id])
+                    return {cur.id} if cur.id in known else set()
+                if isinstance(cur, ast.Call) and isinstance(cur.func, ast.Attribute):
+                    if isinstance(cur.func.value, ast.Name) and cur.func.value.id in ("np", "numpy", "math") and cur.func.attr in ok_np and cur.args:
+                        cur = cur.args[0]
+                        continue
+                    if cur.func.attr in ok_meth:
+                        cur = cur.func.value
+                        continue
+                if isinstance(cur, ast.Call) and isinstance(cur.func, ast.Name) and cur.func.id in ("min", "float") and len(cur.args) == 1:
+                    cur = cur.args[0]
+                    continue
+                if any(isinstance(x, ast.BinOp) for x in ast.walk(cur)):
+                    weak.append(norm_stmt(e))          # arithmetic on the differences (a product, a sum): certainly weaker than testing each
+                else:
+                    unknown = True
+                return set()
+
+        def cmp_guard(d, subst):
+            if isinstance(d, ast.Compare) and len(d.ops) == 1:
+                l, op, rr = d.left, d.ops[0], d.comparators[0]
+                back = (lambda S: {mp.get(x, x) for x in S}) if mp else (lambda S: S)
+                if (isinstance(op, ast.LtE) and zero(rr)) or (isinstance(op, ast.Lt) and tiny(rr)):
+                    return back(view(l, subst))
+                if (isinstance(op, ast.GtE) and zero(l)) or (isinstance(op, ast.Gt) and tiny(l)):
+                    return back(view(rr, subst))
+                if isinstance(op, (ast.Lt, ast.Gt)) and (zero(rr) or zero(l)):
+                    weak.append(norm_stmt(d))
+            return set()
+
+        test = st.test
+        if isinstance(test, ast.BoolOp) and isinstance(test.op, ast.And):
+            weak.append(norm_stmt(test))
+            continue
+        disj = test.values if isinstance(test, ast.BoolOp) and isinstance(test.op, ast.Or) else [test]
+        for d in disj:
+            # any(<cmp on x> for x in (p1, p2))
+            if isinstance(d, ast.Call) and isinstance(d.func, ast.Name) and d.func.id == "any" and len(d.args) == 1 and isinstance(d.args[0], (ast.GeneratorExp, ast.ListComp)) \
+                    and len(d.args[0].generators) == 1 and isinstance(d.args[0].generators[0].target, ast.Name) \
+                    and isinstance(d.args[0].generators[0].iter, (ast.Tuple, ast.List)) and all(isinstance(x, ast.Name) for x in d.args[0].generators[0].iter.elts):
+                g = d.args[0].generators[0]
+                guarded |= cmp_guard(d.args[0].elt, {g.target.id: [x.id for x in g.iter.elts]})
+            elif isinstance(d, ast.Compare):
+                guarded |= cmp_guard(d, {})
+            else:
+                unknown = True
+    return guarded, weak, unknown
+
+
 def check_lmtd_guard(ctx: CheckContext, p: Program, r: Resolver, rule: str = "LMTD-GUARD"):
-    """Every function that takes the logarithm of a ratio of two of its parameters must, before it,
-    raise when either parameter is non-positive."""
-    ctx.rule(rule, "a raising guard `p <= 0` for both end differences dominates the logarithm")
+    """Every function that takes the logarithm of a ratio of two of its parameters must, before it, raise when either parameter is
+    non-positive - in the function itself or, for a private helper, in every caller before the call."""
+    ctx.rule(rule, "a raising guard `p <= 0` for both end differences dominates the logarithm (in the function, in a validator it calls, or - for a private "
+                   "helper - in each caller before the call); a guard on a product/sum of the differences is weaker and reported; a guard this rule cannot "
+                   "interpret leaves the site undecided")
     n = 0
-    for fi in p.all_funcs:
-        if fi.module.name != "OpenPinch.utils.heat_exchanger":
+    mod_funcs = [f for f in p.all_funcs if f.module.name == "OpenPinch.utils.heat_exchanger" or f.module.name.startswith("OpenPinch.utils._hx")]
+    for fi in mod_funcs:
+        if isinstance(fi.node, ast.Lambda):
             continue
         params = fi.pos_params
-        log_stmt = None
-        log_params: List[str] = []
+        log_stmt, log_params = None, []
         for st in fi.node.body:
             for c in ast.walk(st):
                 if isinstance(c, ast.Call) and isinstance(c.func, ast.Attribute) and c.func.attr == "log" and c.args \
                         and isinstance(c.args[0], ast.BinOp) and isinstance(c.args[0].op, ast.Div) \
                         and isinstance(c.args[0].left, ast.Name) and isinstance(c.args[0].right, ast.Name):
-                    # log(p1 / p2) of two end differences passed in as parameters
                     names = [x.id for x in (c.args[0].left, c.args[0].right) if x.id in params]
                     if len(set(names)) >= 2:
-                        log_stmt = st
-                        log_params = sorted(set(names))
+                        log_stmt, log_params = st, sorted(set(names))
             if log_stmt is not None:
                 break
         if log_stmt is None:
             continue
         n += 1
-        guarded = set()
-        weak = []
-        pre: List[ast.stmt] = []
-        for st in fi.node.body:
-            if st is log_stmt:
-                break
-            pre.append(st)
-        # a call of a module function whose body is such a guard counts, with its parameters mapped to our arguments
-        expanded: List[Tuple[ast.stmt, Dict[str, str]]] = []
-        for st in pre:
-            if isinstance(st, ast.Expr) and isinstance(st.value, ast.Call):
-                for t in r.resolve_call(fi, st.value):
-                    if isinstance(t, FuncInfo) and t.module is fi.module and not isinstance(t.node, ast.Lambda):
-                        mp: Dict[str, str] = {}
-                        for i, a in enumerate(st.value.args):
-                            if isinstance(a, ast.Name) and i < len(t.pos_params):
-                                mp[t.pos_params[i]] = a.id
-                        for k in st.value.keywords:
-                            if k.arg and isinstance(k.value, ast.Name):
-                                mp[k.arg] = k.value.id
-                        for s2 in t.node.body:
-                            expanded.append((s2, mp))
-            else:
-                expanded.append((st, {}))
-        for st, mp in expanded:
-            if mp:
-                params_here = list(mp)
-            if isinstance(st, ast.If) and st.body and isinstance(st.body[-1], ast.Raise) and not st.orelse:
-                disj = st.test.values if isinstance(st.test, ast.BoolOp) and isinstance(st.test.op, ast.Or) else [st.test]
-                if isinstance(st.test, ast.BoolOp) and isinstance(st.test.op, ast.And):
-                    weak.append(norm_stmt(st.test))
+        guarded, weak, unknown = _positivity_guards(r, fi, log_stmt, params)
+        missing = [pn for pn in log_params if pn not in guarded]
+        if missing and fi.name.startswith("_"):
+            # private helper: the refusal may live in the callers
+            callers = []
+            for g in mod_funcs:
+                if g is fi or isinstance(g.node, ast.Lambda):
                     continue
-                for d in disj:
-                    if isinstance(d, ast.Compare) and len(d.ops) == 1:
-                        l, op, rr = d.left, d.ops[0], d.comparators[0]
-                        def names(e):
-                            """the single parameter `e` is a monotone (order-preserving, min-taking) view of, else {}"""
-                            ok_meth = {"round", "min", "astype", "flatten", "ravel", "item"}
-                            ok_np = {"array", "asarray", "min", "amin", "nanmin", "round", "around", "atleast_1d"}
-                            cur = e
-                            while True:
-                                if isinstance(cur, ast.Name):
-                                    return {cur.id} if (cur.id in params or cur.id in mp) else set()
-                                if isinstance(cur, ast.Call) and isinstance(cur.func, ast.Attribute):
-                                    if isinstance(cur.func.value, ast.Name) and cur.func.value.id in ("np", "numpy", "math") and cur.func.attr in ok_np and cur.args:
-                                        cur = cur.args[0]
-                                        continue
-                                    if cur.func.attr in ok_meth:
-                                        cur = cur.func.value
-                                        continue
-                                if isinstance(cur, ast.Call) and isinstance(cur.func, ast.Name) and cur.func.id in ("min", "float") and len(cur.args) == 1:
-                                    cur = cur.args[0]
-                                    continue
-                                weak.append(norm_stmt(e))
-                                return set()
-                        def zero(e):
-                            return isinstance(e, ast.Constant) and isinstance(e.value, (int, float)) and e.value == 0
-                        def tiny(e):
-                            return isinstance(e, ast.Constant) and isinstance(e.value, (int, float)) and 0 < e.value <= 1e-3
-                        back = (lambda S: {mp.get(x, x) for x in S}) if mp else (lambda S: S)
-                        if (isinstance(op, ast.LtE) and zero(rr)) or (isinstance(op, ast.Lt) and tiny(rr)):
-                            guarded |= back(names(l))
-                        elif (isinstance(op, ast.GtE) and zero(l)) or (isinstance(op, ast.Gt) and tiny(l)):
-                            guarded |= back(names(rr))
-                        elif isinstance(op, (ast.Lt, ast.Gt)):
-                            weak.append(norm_stmt(d))
+                for st in g.node.body:
+                    for c in ast.walk(st):
+                        if isinstance(c, ast.Call) and fi in r.resolve_call(g, c):
+                            callers.append((g, st, c))
+            if callers:
+                still = set(missing)
+                all_cover = True
+                for g, st, c in callers:
+                    amap = {fi.pos_params[k]: a.id for k, a in enumerate(c.args) if isinstance(a, ast.Name) and k < len(fi.pos_params)}
+                    amap.update({k.arg: k.value.id for k in c.keywords if k.arg and isinstance(k.value, ast.Name)})
+                    if not all(pn in amap for pn in missing):
+                        unknown = True
+                        all_cover = False
+                        continue
+                    g2, w2, u2 = _positivity_guards(r, g, st, list(g.pos_params) + list(amap.values()))
+                    weak += w2
+                    unknown = unknown or u2
+                    if not all(amap[pn] in g2 for pn in missing):
+                        all_cover = False
+                if all_cover:
+                    missing = []
         for pn in log_params:
-            ok = pn in guarded
+            ok = pn not in missing
+            if not ok and unknown and not weak:
+                ctx.info.setdefault("lmtd_undecided", []).append(f"{fi.qualname}:{pn}")
+                continue
             ctx.ob(rule, f"{fi.qualname}:{pn}", fi.loc, ok,
                    "" if ok else f"logarithm of a ratio involving '{pn}' is not dominated by a guard raising on {pn} <= 0"
                                  + (f" (found weaker test: {'; '.join(weak)})" if weak else ""))
